@@ -16,7 +16,7 @@ RULE = ("S-REGION: FileContents::new_from_data + show_region / line_number_and_b
         "S-DIAG: one fault of 19 kinds planted at a known line and column (any line incl. first/last, after comments, blank "
         "lines and two-line block comments, LF or CRLF, with or without final newline) in an otherwise valid program; the real "
         "parse_y86_hcl + Error::format_for_contents with the real preamble; every located region of the rendered text must "
-        "be what the model renders for a span the error carries (correspondence: errors.rs hands its spans to show_region "
+        "be what the model renders for a span the error carries, the message must name the planted wire in quotes (where the fault is about a wire) (correspondence: errors.rs hands its spans to show_region "
         "unchanged), the planted span must be shown exactly as Spec.region renders it and no region may name <builtin> (oracle). "
         "S-PARSE (as in C11): the spanned tree the real expression parser builds for generated expressions (all operator pairs, "
         "unary/in placements, random trees; operands in parentheses at either edge) must be the spanned tree of the Lean parser "
@@ -57,6 +57,13 @@ def judge_diag(req, impl, model, spec):
     what = ""
     if not ok:
         what = ("the planted fault (%s) is not shown at its line/column, or a region is attributed to <builtin>: %s" % (kind, spec))
+    # the harness also looks at the message text: where the planted fault is about a wire, an 'error:' line names it in quotes
+    if " named=0" in impl:
+        ok = False
+        what = "no 'error:' line of the rendered diagnostics names the offending wire of the planted fault (%s)" % kind
+    if " named=" in impl:
+        cats.append("message-names-the-wire")
+    impl = impl.replace(" named=1", "").replace(" named=0", "")
     return {"corr": impl == model, "oracle": ok, "what": what, "key": req, "cats": cats}
 
 
